@@ -412,10 +412,16 @@ pub fn gen_world(base: u64, run: u64, profile: Profile) -> World {
         if !regexes.is_empty() && wl.chance(1, 3) {
             let src: RegexSpec = regexes[wl.usize_below(regexes.len())].clone();
             let mut f: Vec<char> = src.flags.chars().collect();
-            let toggle = ['i', 'u', 'm', 's', 'u', 'i'][wl.usize_below(6)];
+            let toggle = ['i', 'u', 'm', 's', 'v', 'u', 'i', 'v'][wl.usize_below(8)];
             if let Some(p) = f.iter().position(|c| *c == toggle) {
                 f.remove(p);
-            } else if !(toggle == 'u' && f.contains(&'v')) {
+            } else {
+                // u and v are mutually exclusive
+                if toggle == 'u' {
+                    f.retain(|c| *c != 'v');
+                } else if toggle == 'v' {
+                    f.retain(|c| *c != 'u');
+                }
                 f.push(toggle);
             }
             let exec2 = if wl.chance(1, 4) { if src.exec == ExecKind::Pike { ExecKind::Backtrack } else { ExecKind::Pike } } else { src.exec };
